@@ -157,7 +157,42 @@ def execute(obj, ops, other=None):
     return hist
 
 
+def run_classops(case):
+    """All classes first, then one fresh instance per entry of `objs`, then the history: object operations
+    (trailing "#i" = object number) and ["AddClass", name, trait, k] = classes[k].add_class_trait(name, trait)."""
+    classes = list(ROOTS)
+    create(classes, case["classes"])
+    objs = []
+    for k in case["objs"]:
+        if k < len(ROOTS):
+            raise ValueError("instances of freshly created classes only")
+        objs.append(classes[k]())
+    hist = []
+    for op in case["ops"]:
+        if op[0] == "AddClass":
+            k = op[3]
+            if k < len(ROOTS):
+                raise ValueError("add_class_trait on freshly created classes only")
+            try:
+                classes[k].add_class_trait(op[1], mk(op[2]))
+                out = ["Done"]
+            except Exception as e:  # noqa
+                out = ["Raise", dlib.exn_name(e, EXN)]
+            hist.append({"out": out, "stored": None, "shadow": None, "base": None, "inst": None})
+        else:
+            i = int(op[-1][1:])
+            hist += execute(objs[i], [op[:-1]])
+    hist[0]["mro"] = []
+    return hist
+
+
 def run_case(case):
+    if "objs" in case:
+        return run_classops(case)
+    return run_case_staged(case)
+
+
+def run_case_staged(case):
     """Classes except the last `nlate` ones; the early operations (flag "E") on a fresh instance of
     class `precls`; the remaining classes; the other operations on two fresh instances of class `cls`
     (flag "B" = the second one)."""
